@@ -134,18 +134,60 @@ for line in sys.stdin:
 '''
 
 
+HUNG = []      # descriptions of worker calls that never answered (the worker was killed): a session that does not proceed
+
+
+class Hanging(Exception):
+    """several session calls never answered: the multi-process part is abandoned, the hangs are the finding"""
+
+
+def reply(pr, limit, what=""):
+    """One reply line of a worker process, or "err:hung" when none comes within `limit` seconds (the worker is killed:
+    a session that neither proceeds nor times out would otherwise hang the whole check)."""
+    import select
+    r, _, _ = select.select([pr.stdout], [], [], limit)
+    if not r:
+        HUNG.append(what)
+        try:
+            pr.kill()
+        except Exception:
+            pass
+        if len(HUNG) >= 3:
+            raise Hanging(what)
+        return "err:hung"
+    return pr.stdout.readline().strip()
+
+
+def limit_of(m):
+    """how long a reply to message m may take: the timeout the session was asked to honour, plus a generous margin"""
+    t = m.get("timeout")
+    return (t if isinstance(t, (int, float)) else 0) + (600 if m.get("cmd") == "script" else 20)
+
+
 class Workers:
     def __init__(self, ctx, n):
         p = os.path.join(ctx.sub("c04"), "worker.py")
         open(p, "w").write(WORKER)
-        env = dict(os.environ, MOLLI_REPO_DIR=vlib.REPO)
-        self.ps = [subprocess.Popen([vlib.PY, p], stdin=subprocess.PIPE, stdout=subprocess.PIPE, text=True, env=env) for _ in range(n)]
+        self.env = dict(os.environ, MOLLI_REPO_DIR=vlib.REPO)
+        self.path = p
+        self.ps = [subprocess.Popen([vlib.PY, p], stdin=subprocess.PIPE, stdout=subprocess.PIPE, text=True, env=self.env) for _ in range(n)]
+        self.last = [{} for _ in range(n)]
 
     def send(self, wk, **m):
-        self.ps[wk].stdin.write(json.dumps(m) + "\n"); self.ps[wk].stdin.flush()
+        self.last[wk] = m
+        try:
+            self.ps[wk].stdin.write(json.dumps(m) + "\n"); self.ps[wk].stdin.flush()
+        except (BrokenPipeError, ValueError):
+            pass
 
     def recv(self, wk):
-        return self.ps[wk].stdout.readline().strip()
+        m = self.last[wk]
+        r = reply(self.ps[wk], limit_of(m), f"worker {wk}: {m.get('cmd')} {'w' if m.get('w') else 'r' if 'w' in m else ''} timeout={m.get('timeout')}")
+        if r == "err:hung" or (r == "" and self.ps[wk].poll() is not None):
+            # the worker is gone: a new one takes its place (its collections are lost; the schedule is judged as it stands)
+            self.ps[wk] = subprocess.Popen([vlib.PY, self.path], stdin=subprocess.PIPE, stdout=subprocess.PIPE, text=True, env=self.env)
+            return r or "err:worker-died"
+        return r
 
     def call(self, wk, **m):
         self.send(wk, **m)
@@ -383,8 +425,11 @@ def death_schedules(ctx, n_scen):
         return subprocess.Popen([vlib.PY, pw], stdin=subprocess.PIPE, stdout=subprocess.PIPE, text=True, env=env)
 
     def call(pr, **m):
-        pr.stdin.write(json.dumps(m) + "\n"); pr.stdin.flush()
-        return pr.stdout.readline().strip()
+        try:
+            pr.stdin.write(json.dumps(m) + "\n"); pr.stdin.flush()
+        except (BrokenPipeError, ValueError):
+            return "err:worker-died"
+        return reply(pr, limit_of(m), f"death schedule: {m.get('cmd')} timeout={m.get('timeout')}")
     others = [spawn(), spawn()]
     nxt = spawn()
     cases, metas, viol = [], [], []
@@ -539,7 +584,7 @@ def creation_race(ctx, k):
             pr.stdin.write(json.dumps(m) + "\n"); pr.stdin.flush()
 
         def call(pr, **m):
-            send(pr, **m); return pr.stdout.readline().strip()
+            send(pr, **m); return reply(pr, limit_of(m), f"creation race: {m.get('cmd')} timeout={m.get('timeout')}")
         try:
             send(A, cmd="new", h=path, path=path, slow_look=0.5, marker=marker, look_index=j)
             t0 = time.time()
@@ -548,7 +593,7 @@ def creation_race(ctx, k):
             raced += os.path.exists(marker)
             rb = [call(B, cmd="new", h=path, path=path), call(B, cmd="enter", h=path, w=True, timeout=10.0),
                   call(B, cmd="put", h=path, k="from_B", v=(b"b" * 100).hex()), call(B, cmd="exit", h=path)]
-            ra0 = A.stdout.readline().strip()
+            ra0 = reply(A, 60, "creation race: new")
             if ra0.startswith("ok:"):
                 nlooks = max(nlooks, int(ra0[3:])); ra0 = "ok"
             ra = [ra0, call(A, cmd="enter", h=path, w=True, timeout=10.0),
